@@ -140,4 +140,113 @@ theorem haLoop_inv {div : Nat → Rat} {q : Rat} (hdiv : SignpostDiv div q) {vot
             rw [hnew k hk]
             exact this i hi k hk hsi
 
+
+theorem getD_map_const_zero {α : Type} (l : List α) (k : Nat) : (l.map (fun _ => (0 : Nat))).getD k 0 = 0 := by
+  rw [List.getD_eq_getElem?_getD, List.getElem?_map]
+  cases l[k]? <;> simp
+
+/-- the result of `haEvaluate`, with a `Tie` spread over its first members, satisfies the invariant -/
+theorem haEvaluate_spread_inv {div : Nat → Rat} {q : Rat} (hdiv : SignpostDiv div q) {votes : List Rat}
+    (hv : ∀ k, 0 ≤ votes.getD k 0) {n : Nat} {r : HARes} (h : haEvaluate div votes n = .ok r) :
+    let c := match r.tie with
+      | none => r.seats
+      | some (b, cnt) => tieSpread r.seats b cnt
+    c.length = votes.length ∧ HAInv div (fun k => votes.getD k 0) (fun k => c.getD k 0) votes.length := by
+  unfold haEvaluate at h
+  split at h
+  · simp at h
+  · simp only [Except.ok.injEq] at h
+    have h0 : HAInv div (fun k => votes.getD k 0) (fun k => (votes.map fun _ => (0 : Nat)).getD k 0) votes.length := by
+      intro i _ k _ hs
+      simp only [getD_map_const_zero] at hs
+      omega
+    obtain ⟨hlen, hinv, htie⟩ := haLoop_inv hdiv hv n n (votes.map fun _ => 0) (by simp) h0
+    rw [h] at hlen hinv htie
+    cases ht : r.tie with
+    | none => exact ⟨hlen, hinv⟩
+    | some bc =>
+      obtain ⟨b, cnt⟩ := bc
+      simp only
+      unfold tieSpread
+      refine ⟨by simp [hlen], ?_⟩
+      have hadd := HAInv_add hdiv (v := fun k => votes.getD k 0) (s := fun k => r.seats.getD k 0) hv hinv
+        (fun k => (b.take cnt).contains k)
+        (fun k hk k' hk' => by
+          have hmem : k ∈ b := List.mem_of_mem_take (by simpa using hk)
+          exact (htie b cnt ht k hmem).2 k' hk')
+      intro i hi k hk hsi
+      simp only at hsi ⊢
+      rw [getD_map_range _ _ _ _ (by omega)] at hsi ⊢
+      rw [getD_map_range _ _ _ _ (by omega)]
+      exact hadd i hi k hk hsi
+
+theorem getD_colOf (V : Mat Rat) (j i : Nat) : (colOf V j).getD i 0 = vget V i j := by
+  unfold colOf vget
+  simp only [List.getD_eq_getElem?_getD, List.getElem?_map]
+  cases V[i]? <;> simp
+
+theorem length_colOf (V : Mat Rat) (j : Nat) : (colOf V j).length = V.length := by simp [colOf]
+
+/-- one column of the initial solution satisfies the highest-averages invariant -/
+theorem initialColumn_inv {div : Nat → Rat} {q : Rat} (hdiv : SignpostDiv div q) {V : Mat Rat}
+    (hV : ∀ i j, 0 ≤ vget V i j) {j k : Nat} {c : List Nat} (h : initialColumn div V j k = .ok c) :
+    c.length = V.length ∧ HAInv div (fun i => vget V i j) (fun i => c.getD i 0) V.length := by
+  unfold initialColumn at h
+  split at h
+  · simp only [Except.ok.injEq] at h
+    subst h
+    refine ⟨by simp, ?_⟩
+    intro i _ k' _ hs
+    simp only [getD_map_const_zero] at hs; omega
+  · cases hr : haEvaluate div (colOf V j) k with
+    | error e => rw [hr] at h; simp at h
+    | ok r =>
+      rw [hr] at h
+      simp only [Except.ok.injEq] at h
+      have := haEvaluate_spread_inv hdiv (votes := colOf V j) (fun k => by rw [getD_colOf]; exact hV k j) hr
+      simp only [length_colOf, getD_colOf] at this
+      rw [← h]
+      cases ht : r.tie with
+      | none => rw [ht] at this; exact this
+      | some bc => obtain ⟨b, cnt⟩ := bc; rw [ht] at this; exact this
+
+/-- with at least one positive vote among the candidates, a candidate without votes holds no seat -/
+theorem HAInv_zero_seats {div : Nat → Rat} {q : Rat} (hdiv : SignpostDiv div q) {v : Nat → Rat} {s : Nat → Nat}
+    {L : Nat} (hinv : HAInv div v s L) (hpos : ∃ k < L, 0 < v k) {i : Nat} (hi : i < L) (hvi : v i = 0) :
+    s i = 0 := by
+  by_contra hne
+  obtain ⟨k, hk, hvk⟩ := hpos
+  have := hinv i hi k hk (Nat.one_le_iff_ne_zero.mpr hne)
+  rw [hvi, zero_div] at this
+  have : 0 < v k / div (s k) := div_pos hvk (hdiv.pos _)
+  linarith
+
+/-- the invariant in signpost form: lower bounds of all cells are below upper bounds of all cells -/
+theorem HAInv_signposts {div : Nat → Rat} {q : Rat} (hdiv : SignpostDiv div q) {v : Nat → Rat} {s : Nat → Nat}
+    {L : Nat} (hinv : HAInv div v s L) {i k : Nat} (hi : i < L) (hk : k < L) (hvi : 0 < v i) (hvk : 0 < v k) :
+    ((s i : Rat) - q) / v i ≤ ((s k : Rat) + 1 - q) / v k := by
+  have hq0 := hdiv.q_nonneg
+  have hq1 := hdiv.q_lt_one
+  have hsk : (0 : Rat) ≤ (s k : Rat) := Nat.cast_nonneg _
+  by_cases hs : s i = 0
+  · rw [hs]
+    have h1 : ((0 : Nat) : Rat) - q ≤ 0 := by simp; exact hq0
+    have : ((0 : Nat) : Rat) - q ≤ 0 := h1
+    calc (((0 : Nat) : Rat) - q) / v i ≤ 0 := div_nonpos_of_nonpos_of_nonneg h1 (le_of_lt hvi)
+      _ ≤ ((s k : Rat) + 1 - q) / v k := div_nonneg (by linarith) (le_of_lt hvk)
+  · have h1 : 1 ≤ s i := Nat.one_le_iff_ne_zero.mpr hs
+    have := hinv i hi k hk h1
+    obtain ⟨κ, hκ, hd⟩ := hdiv.factor
+    rw [hd, hd] at this
+    have hcast : ((s i - 1 : Nat) : Rat) = (s i : Rat) - 1 := by rw [Nat.cast_sub h1]; simp
+    rw [hcast] at this
+    have hsi : (1 : Rat) ≤ (s i : Rat) := by exact_mod_cast h1
+    have hA : 0 < κ * ((s k : Rat) + 1 - q) := mul_pos hκ (by linarith)
+    have hB : 0 < κ * ((s i : Rat) - 1 + 1 - q) := mul_pos hκ (by linarith)
+    rw [div_le_div_iff₀ hA hB] at this
+    rw [div_le_div_iff₀ hvi hvk]
+    have e : (s i : Rat) - 1 + 1 - q = (s i : Rat) - q := by ring
+    rw [e] at this
+    nlinarith
+
 end VL.Biprop
